@@ -72,7 +72,7 @@ def _fill():
         # names Python's codec registry accepts but a header cannot carry (D28): empty, with a
         # space, read back as an integer
         INVALID[kind] = [(kind, '\xe9'), (kind, 'utf-8€'), (kind, ''), (kind, 'utf 8'), (kind, 'latin 1'),
-                         (kind, '1252'), (kind, '437')]
+                         (kind, '1252'), (kind, '437'), (kind, 'utf-8\n'), (kind, 'latin-1\n')]
 
 
 _fill()
@@ -80,6 +80,18 @@ _fill()
 
 def invalid_variants(rng, kind):
     return rng.choice(INVALID[kind])
+
+
+def representable(name):
+    """can a header carry this option value and a reader give it back as a string?"""
+    import re
+    if not isinstance(name, str) or not re.fullmatch(r'[A-Za-z0-9/_.\-]+', name) or name.endswith('\n'):
+        return False
+    try:
+        int(name)
+        return False
+    except ValueError:
+        return True
 
 
 def section_of(level, kind):
@@ -106,6 +118,15 @@ class Spec(object):
         for n in range(0, maxlen + 1):
             for tup in itertools.product('CFPMD', repeat=n):
                 yield ('default', 'default', [VALID[k] for k in tup])
+        # every short codec name over an alphabet of representable and unrepresentable characters
+        # as the `encoding` of a container (what a header can carry: D28)
+        alpha = ['a', '1', '-', '_', '/', '.', ' ', '=', ',', '\n', '\r', '\xe9', 'Z']
+        for n in (1, 2, 3):
+            for tup in itertools.product(alpha, repeat=n):
+                name = ''.join(tup)
+                if n == 3 and not (set(tup) & set([' ', '=', ',', '\n', '\r', '\xe9', '1', '-', '_'])):
+                    continue
+                yield ('default', 'default', [('C', name)])
         for _ in range(nrand):
             n = rng.randint(1, 40)
             calls = []
@@ -168,6 +189,9 @@ class Spec(object):
             after = stream.getvalue()
             if ok:
                 accepted.append(c)
+                if c[0] in 'CF' and c[1] is not None and not representable(c[1]):
+                    bad.append('call %d (%s) accepted although the encoding %r cannot be carried by a header'
+                               % (i, c[0], c[1]))
                 if c in INVALID[c[0]]:
                     bad.append('call %d (%s) accepted although its argument is invalid: %r' % (i, c[0], c[1:]))
                 if not in_order:
